@@ -828,7 +828,7 @@ impl Parser {
     pub(crate) fn invoke_macro(&mut self, buf: &mut Buffer, current_layer: usize, caret: &mut Caret) -> EngineResult<CallbackAction> {
         self.state = EngineState::Default;
         if let Some(id) = self.parsed_numbers.first() {
-            self.invoke_macro_by_id(buf, current_layer, caret, *id);
+            self.invoke_macro_by_id(buf, current_layer, caret, *id)?;
         }
         Ok(CallbackAction::Update)
     }
